@@ -22,7 +22,7 @@ type waiter struct {
 }
 
 type mop struct {
-	Kind string // put putmany casok casbad delete create
+	Kind string // put putmany casok casbad delete create reput recas (re*: store the value that is already there - still a new version)
 	Key  string
 }
 
@@ -83,9 +83,14 @@ func job(sc scen, cfg vsched.Config) sdrv.Job {
 		cur := map[string]string{}
 		stale := map[string]string{}
 		seq := 0
-		put := func(thread int, key string) {
+		curVal := map[string]string{}
+		put := func(thread int, key string, same ...bool) {
 			seq++
 			val := fmt.Sprintf("w%d", seq)
+			if len(same) > 0 && curVal[key] != "" {
+				val = curVal[key]
+			}
+			curVal[key] = val
 			i := h.Begin(kvh.HOp{Thread: thread, Kind: "put", Key: key, Val: val})
 			r, err := st.Put(ctx, kvs.Record{Key: key, Value: []byte(val)})
 			h.End(i, "", r.Version, kvh.ErrClass(err))
@@ -94,7 +99,13 @@ func job(sc scen, cfg vsched.Config) sdrv.Job {
 			}
 			cur[key] = r.Version
 		}
-		for _, k := range []string{"a", "b"} {
+		pre := []string{"a", "b"}
+		for _, w := range sc.waiters {
+			if w.Key != "a" && w.Key != "b" {
+				pre = append(pre, w.Key)
+			}
+		}
+		for _, k := range pre {
 			put(90, k)
 			put(90, k)
 		}
@@ -150,6 +161,8 @@ func job(sc scen, cfg vsched.Config) sdrv.Job {
 				switch m.Kind {
 				case "put":
 					put(50, m.Key)
+				case "reput":
+					put(50, m.Key, true)
 				case "putmany":
 					// m.Key "a" -> [a]; "ab" -> [a,b]; "ba" -> [b,a] (a batch: every key of it must wake its waiters)
 					var ks []string
@@ -173,6 +186,7 @@ func job(sc scen, cfg vsched.Config) sdrv.Job {
 						if cv, ok := cur[k]; ok {
 							stale[k] = cv
 						}
+						curVal[k] = vals[i]
 					}
 					for _, k := range ks {
 						g, _ := st.Get(ctx, k) // learn the new version (the mutator is the only writer)
@@ -180,9 +194,12 @@ func job(sc scen, cfg vsched.Config) sdrv.Job {
 						hi := h.Begin(kvh.HOp{Thread: 50, Kind: "get", Key: k})
 						h.End(hi, string(g.Value), g.Version, "nil")
 					}
-				case "casok", "casbad":
+				case "casok", "casbad", "recas":
 					seq++
 					val := fmt.Sprintf("w%d", seq)
+					if m.Kind == "recas" && curVal[m.Key] != "" {
+						val = curVal[m.Key]
+					}
 					exp := cur[m.Key]
 					if m.Kind == "casbad" || exp == "" {
 						exp = "01HZZZZZZZZZZZZZZZZZZZZZZB"
@@ -194,6 +211,7 @@ func job(sc scen, cfg vsched.Config) sdrv.Job {
 						ov = r.Version
 						stale[m.Key] = cur[m.Key]
 						cur[m.Key] = r.Version
+						curVal[m.Key] = val
 					}
 					h.End(hi, "", ov, kvh.ErrClass(err))
 				case "delete":
@@ -203,6 +221,7 @@ func job(sc scen, cfg vsched.Config) sdrv.Job {
 					if err == nil {
 						stale[m.Key] = cur[m.Key]
 						delete(cur, m.Key)
+						delete(curVal, m.Key)
 					}
 				case "create":
 					seq++
@@ -212,6 +231,7 @@ func job(sc scen, cfg vsched.Config) sdrv.Job {
 					h.End(hi, "", v, kvh.ErrClass(err))
 					if err == nil {
 						cur[m.Key] = v
+						curVal[m.Key] = val
 					}
 				}
 				vsched.Note("mut %v", m)
@@ -375,6 +395,17 @@ func main() {
 	if run.Thorough() {
 		add("inmem", []waiter{{"a", "getwait"}, {"b", "getwait"}}, seqs(onAB, 2), []int{0, 1, 3}, P)
 	}
+	// writes that store the value already there (a new version all the same), and a slash-prefixed key
+	same := []mop{{"reput", "a"}, {"recas", "a"}, {"put", "a"}, {"delete", "a"}}
+	onS := []mop{{"put", "/s"}, {"casok", "/s"}, {"delete", "/s"}, {"create", "/s"}, {"reput", "/s"}}
+	add("inmem", []waiter{{"a", "current"}}, seqs(same, 2), []int{0, 1}, P)
+	add("inmem", []waiter{{"a", "current"}, {"a", "current"}}, seqs(same[:2], 2), []int{0, 1}, P)
+	add("inmem", []waiter{{"a", "getwait"}}, seqs(same[:2], 2), []int{0}, P)
+	for _, v := range vers {
+		add("inmem", []waiter{{"/s", v}}, seqs(onS, 2), []int{0, 1}, P)
+		add("redis", []waiter{{"/s", v}}, seqs(onS, 1), []int{0, 1}, 1)
+	}
+	add("redis", []waiter{{"a", "current"}}, seqs(same[:2], 2), []int{0, 1}, 1)
 	// three waiters
 	three := [][]waiter{{{"a", "current"}, {"a", "current"}, {"a", "current"}}, {{"a", "current"}, {"a", "current"}, {"b", "current"}}, {{"a", "current"}, {"a", "stale"}, {"a", "current"}}}
 	for _, ws := range three {
